@@ -745,6 +745,9 @@ fn build_onsite_prod(doc: &roxmltree::Document) -> Vec<VypSystem> {
     fn parse_ele_prod(data: &str) -> Vec<VypSystem> {
         let mut systems = vec![];
         for sysdata in data.split(';').collect::<Vec<_>>().as_slice().chunks(14) {
+            if sysdata.len() < 2 {
+                continue;
+            }
             let kind = sysdata[0];
             let name = sysdata[1];
             // let values = sysdata
@@ -787,6 +790,9 @@ fn build_onsite_prod(doc: &roxmltree::Document) -> Vec<VypSystem> {
     fn parse_thermal_prod(data: &str) -> Vec<VypSystem> {
         let mut systems = vec![];
         for sysdata in data.split(';').collect::<Vec<_>>().as_slice().chunks(14) {
+            if sysdata.len() < 2 {
+                continue;
+            }
             let kind = sysdata[0];
             let name = sysdata[1];
             // let values = sysdata
